@@ -680,6 +680,14 @@ func defectClass(d string) string {
 }
 
 func (p *c13) keyUpdates(x *res, adapter string, ctx *runner.Ctx) {
+	// the key attributes are called h / r, or carry names with an underscore, digits and capitals (user_id,
+	// created_at ...): what an update may do to them does not depend on how they are spelled
+	for _, kn := range [][2]string{{"h", "r"}, {"user_id", "created_at"}, {"Pk1", "SK_2"}} {
+		p.keyUpdatesNamed(x, adapter, kn[0], kn[1], ctx)
+	}
+}
+
+func (p *c13) keyUpdatesNamed(x *res, adapter, hn, rn string, ctx *runner.Ctx) {
 	spec := mon.SpecHashRange("tbl13")
 	type ku struct {
 		name string
@@ -706,7 +714,7 @@ func (p *c13) keyUpdates(x *res, adapter string, ctx *runner.Ctx) {
 		}
 	}
 	cases := []ku{}
-	for _, attr := range []string{"h", "r"} {
+	for _, attr := range []string{hn, rn} {
 		cases = append(cases, mk(attr, false)...)
 		cases = append(cases, mk(attr, true)...)
 		// a NESTED attribute that merely has the NAME of a key attribute (member of a map, of a map in a list; the
@@ -733,6 +741,7 @@ func (p *c13) keyUpdates(x *res, adapter string, ctx *runner.Ctx) {
 		// every case on a string-keyed and on a NUMBER-keyed table
 		numeric = ci >= len(cases)
 		spec = mon.SpecHashRange("tbl13")
+		spec.Hash, spec.Range = hn, rn
 		if numeric {
 			spec.HashT, spec.RangeT = "N", "N"
 		}
@@ -742,14 +751,14 @@ func (p *c13) keyUpdates(x *res, adapter string, ctx *runner.Ctx) {
 				return
 			}
 			docs := func(it val.Item) val.Item {
-				it["doc"] = val.Map(map[string]val.V{"x": val.Str("y"), "h": val.Num("40")})
+				it["doc"] = val.Map(map[string]val.V{"x": val.Str("y"), hn: val.Num("40")})
 				it["emptydoc"] = val.Map(map[string]val.V{"x": val.Str("y")})
 				it["lst"] = val.List(val.Map(map[string]val.V{"x": val.Str("y")}))
 				return it
 			}
-			key := val.Item{"h": kv("a"), "r": kv("a")}
-			orig := docs(val.Item{"h": kv("a"), "r": kv("a"), "v": val.Num("1")})
-			other := val.Item{"h": kv("changed"), "r": kv("a"), "v": val.Str("other")}
+			key := val.Item{hn: kv("a"), rn: kv("a")}
+			orig := docs(val.Item{hn: kv("a"), rn: kv("a"), "v": val.Num("1")})
+			other := val.Item{hn: kv("changed"), rn: kv("a"), "v": val.Str("other")}
 			cl.Do(adapt.Op{Kind: adapt.OpPut, Table: spec.Name, Item: other})
 			if present {
 				cl.Do(adapt.Op{Kind: adapt.OpPut, Table: spec.Name, Item: orig})
@@ -764,6 +773,7 @@ func (p *c13) keyUpdates(x *res, adapter string, ctx *runner.Ctx) {
 			got := cl.Do(op)
 			x.r.Evals++
 			x.fp(true, "keyupdate|%s|%s|%v|%v", adapter, c.name, present, numeric)
+			x.r.Counters["key_updates:"+hn+"/"+rn]++
 			// whatever happened: every stored item's key attributes must equal the key it is retrievable under
 			scan := cl.Do(adapt.Op{Kind: adapt.OpScan, Table: spec.Name})
 			wit := map[string]interface{}{"adapter": adapter, "op": op, "present": present, "outcome": got, "scan": scan.Items}
@@ -773,11 +783,11 @@ func (p *c13) keyUpdates(x *res, adapter string, ctx *runner.Ctx) {
 			}
 			for _, it := range scan.Items {
 				k := val.Item{}
-				if v, ok := it["h"]; ok {
-					k["h"] = v
+				if v, ok := it[hn]; ok {
+					k[hn] = v
 				}
-				if v, ok := it["r"]; ok {
-					k["r"] = v
+				if v, ok := it[rn]; ok {
+					k[rn] = v
 				}
 				g := cl.Do(adapt.Op{Kind: adapt.OpGet, Table: spec.Name, Key: k})
 				if g.Class != adapt.ClsOK || !val.ItemsEqual(g.Item, it) {
@@ -786,10 +796,10 @@ func (p *c13) keyUpdates(x *res, adapter string, ctx *runner.Ctx) {
 				}
 			}
 			g := cl.Do(adapt.Op{Kind: adapt.OpGet, Table: spec.Name, Key: key})
-			if g.Item != nil && (!val.Equal(g.Item["h"], key["h"]) || !val.Equal(g.Item["r"], key["r"])) {
+			if g.Item != nil && (!val.Equal(g.Item[hn], key[hn]) || !val.Equal(g.Item[rn], key[rn])) {
 				x.viol("key-attributes-changed", actionOf(c.name), fmt.Sprintf("[%s] after update %q (class %s) GetItem(%s) returns an item with other key attributes: %s", adapter, txt, got.Class, key.Canon(), g.Item.Canon()), wit)
 			}
-			if o := cl.Do(adapt.Op{Kind: adapt.OpGet, Table: spec.Name, Key: val.Item{"h": kv("changed"), "r": kv("a")}}); !val.ItemsEqual(o.Item, other) {
+			if o := cl.Do(adapt.Op{Kind: adapt.OpGet, Table: spec.Name, Key: val.Item{hn: kv("changed"), rn: kv("a")}}); !val.ItemsEqual(o.Item, other) {
 				x.viol("key-update-hit-other-item", actionOf(c.name), fmt.Sprintf("[%s] update %q changed another item: %s", adapter, txt, o.Item.Canon()), wit)
 			}
 		}
